@@ -189,9 +189,9 @@ def run (ops : List Op) (fs : FS) : FS := ops.foldl (fun fs op => apply op fs) f
 
 def look (fs : FS) (p : Path) : Option Str := (fs.find? (fun e => e.1 == p)).map (·.2)
 
-/-- `Documentation.writeout`, abstracted to its statement list (generated table):
-    a `removeOut` step removes the output directory, the k-th `write` step performs
-    the k-th group of file writes (all below `out`), other steps create directories. -/
+/-- `Documentation.writeout`, abstracted to the list of things a run does at the output directory
+    (generated table, observed on a real run): a `removeOut` step removes the output directory, the k-th
+    `write` step performs the k-th group of file writes (all below `out`), other steps create directories. -/
 def kwRemove : Str := "removeOut".toList
 def kwWrite : Str := "write".toList
 
@@ -304,6 +304,95 @@ def chainBindings (ordered : Bool) (ω : List Binding → List Binding) (levels 
 def chainComps (ordered : Bool) (ω : List Binding → List Binding) (levels : List (List Binding)) : List Binding :=
   levels.foldl (fun acc own => typeComps ordered ω acc own) []
 
+/-! ### which files are read, and as what (`find_all_files`, `Project.__init__`) -/
+
+/-- `name.endswith("." + ext)`: what the glob `**/*.<ext>` of `find_all_files` asks of a file name -/
+def endsWithExt (name ext : Str) : Bool := ('.' :: ext).isSuffixOf name
+
+/-- the file name of `p` ends with one of the configured extensions -/
+def hasSourceName (exts : List Str) (p : Path) : Bool :=
+  match p.getLast? with
+  | some n => exts.any (endsWithExt n)
+  | none => false
+
+/-- `fnmatch(str(p), f"{d}/*")`: `p` lies strictly below the directory `d` -/
+def isBelow (d p : Path) : Bool := isUnder d p && d.length < p.length
+
+/-- `find_all_files`: the files of the file system that lie below a source directory, carry a configured
+    extension and do not lie below an excluded directory (in file-system order; the real function returns a set) -/
+def findSources (srcDirs excl : List Path) (exts : List Str) (fs : FS) : List Path :=
+  (fs.map (·.1)).filter fun p => srcDirs.any (isBelow · p) && !excl.any (isBelow · p) && hasSourceName exts p
+
+/-- Is the output directory among the excluded directories when the settings are complete?  Looked up in the
+    generated table (probed through the real `load_settings` / `parse_arguments` / `find_all_files` for every
+    way the output directory can be configured); an unknown configuration counts as "no". -/
+def outDirExcluded (cfg : Str) : Bool :=
+  match Gen.C12.outputDirExcludedIn.find? (fun c => c.1 == cfg) with
+  | some c => c.2
+  | none => false
+
+/-- `settings.exclude_dir` as `find_all_files` sees it: the user's list, plus the output directory -/
+def excludeDirsTree (cfg : Str) (userExcl : List Path) (out : Path) : List Path :=
+  if outDirExcluded cfg then userExcl ++ [out] else userExcl
+
+def findSourcesTree (cfg : Str) (srcDirs userExcl : List Path) (out : Path) (exts : List Str) (fs : FS) : List Path :=
+  findSources srcDirs (excludeDirsTree cfg userExcl out) exts fs
+
+/-- configurations in which the output directory is *not* excluded: open finding
+    `C12-cli-output-dir-not-excluded` of `known_findings/C12.json` (`--output_dir` on the command line replaces the directory after
+    `ProjectSettings.__post_init__` has put the old one on the exclude list) -/
+def defectiveOutDirConfigs : List Str := [
+  cs! "output_dir from the command line; relative URLs",
+  cs! "output_dir from the command line; project_url set"
+]
+
+/-- `pathlib.PurePath(name).suffix[1:]`: what follows the last dot, unless that dot is the first or the last
+    character of the name -/
+def lastSuffix (name : Str) : Str :=
+  let r := name.reverse
+  let suf := r.takeWhile (· != '.')
+  if suf.length == r.length then []            -- no dot at all
+  else if suf.isEmpty then []                  -- `a.`
+  else if suf.length + 1 == r.length then []   -- `.f90`
+  else suf.reverse
+
+/-- the extension lists of the settings; `exts` (`settings.extensions`) is `list(set(..) | set(..))`: its order
+    is a hash order -/
+structure ExtCfg where
+  exts : List Str
+  fixed : List Str
+  fpp : List Str
+  extra : List Str
+deriving DecidableEq, Repr
+
+inductive FileKind
+  | fortran (preprocessed fixedForm : Bool)
+  | extra
+  | skipped
+deriving DecidableEq, Repr
+
+/-- the extension `Project.__init__` works with: the last suffix of the name (`bySuffix`), or - the other
+    mechanism the translator recognises - the first configured extension the name ends with -/
+def extensionOf (bySuffix : Bool) (c : ExtCfg) (name : Str) : Str :=
+  if bySuffix then lastSuffix name
+  else match (c.exts ++ c.fixed ++ c.extra).find? (endsWithExt name) with
+    | some e => e
+    | none => lastSuffix name
+
+/-- `if extension in self.extensions + self.fixed_extensions: _fortran_file(..) elif extension in
+    self.extra_filetypes: GenericSource(..)`; `_fortran_file` preprocesses iff `extension in fpp_extensions` and
+    reads fixed form iff `extension in fixed_extensions` -/
+def fileKind (bySuffix : Bool) (c : ExtCfg) (name : Str) : FileKind :=
+  let e := extensionOf bySuffix c name
+  if (c.exts ++ c.fixed).contains e then .fortran (c.fpp.contains e) (c.fixed.contains e)
+  else if c.extra.contains e then .extra
+  else .skipped
+
+/-- as the tree is (switch probed on the real `Project.__init__`); `ω` is the order the set union behind
+    `settings.extensions` happens to be listed in -/
+def fileKindTree (ω : List Str → List Str) (c : ExtCfg) (name : Str) : FileKind :=
+  fileKind Gen.C12.extensionBySuffix { c with exts := ω c.exts } name
+
 /-! ### hash-ordered collections turned into sequences
 
   `Gen.C12.hashIterSites` lists every place in `ford/*.py` where an expression that is syntactically a
@@ -356,6 +445,85 @@ def defectiveHashIterSites : List Str := [
   -- C12-inheritedby-children-set-order: edges of the "inherited by" graph follow the iteration order of a set
   cs! "graphs.py:InheritedByGraph.add_node: for node.children"
 ]
+
+
+/-! ### the order `sorted()` puts graph nodes and entities in (`BaseNode.__lt__`, `FortranBase.__lt__`)
+
+  A node set keeps one node per `ident` (`__eq__` / `__hash__`).  `sorted(set)` is stable, so it hands the
+  iteration order of the set on wherever the compared key does not distinguish two members. -/
+
+/-- the key `__lt__` compares: the identifier, or (any other key is represented by) the lower-cased label -/
+def nodeKeyOf (byIdent : Bool) (n : Node) : Str := if byIdent then n.ident else lower n.label
+
+/-- `sorted(nodes)` -/
+def emitNodesBy (byIdent : Bool) (nodes : List Node) : List Node := sortOn (nodeKeyOf byIdent) nodes
+
+/-- ... with the `__lt__` of the working tree (switches generated from the AST of the two classes) -/
+def emitNodesTree (nodes : List Node) : List Node := emitNodesBy Gen.C12.nodeLtByIdent nodes
+def sortEntitiesTree (ents : List Node) : List Node := emitNodesBy Gen.C12.entityLtByIdent ents
+
+/-- sort sites with a `key=` (or a template sort filter) that were looked at one by one: (site, key).  Their
+    input is a list whose order is itself determined (never a set, never a directory listing), so the ties the
+    key leaves are broken by that order. -/
+def reviewedKeyedSorts : List (Str × Str) := [
+  -- table view of an over-long graph: `hop_edges` was filled by the loops over `sorted(nodes)`
+  (cs! "graphs.py:FortranGraph._make_graph_as_table: self.hop_edges.sort()", cs! "lambda x: x[key].attribs['label'].lower()"),
+  -- `sort:` option: the lists of an entity are in source order when they are sorted
+  (cs! "sourceform.py:FortranBase.sort_components: entity.sort()", cs! "sort_key"),
+  -- the list pages: the project lists are in parse order (`projectList`), Jinja's sort is stable
+  (cs! "templates/absint_list.html: project.absinterfaces|sort", cs! "attribute='name'"),
+  (cs! "templates/block_list.html: project.blockdata|sort", cs! "attribute='name'"),
+  (cs! "templates/file_list.html: project.allfiles|sort", cs! "attribute='name'"),
+  (cs! "templates/index.html: project.allfiles|sort", cs! "attribute='name'"),
+  (cs! "templates/index.html: project.modules|sort", cs! "attribute='name'"),
+  (cs! "templates/index.html: project.procedures|sort", cs! "attribute='name'"),
+  (cs! "templates/index.html: project.types|sort", cs! "attribute='name'"),
+  (cs! "templates/mod_list.html: project.modules|sort", cs! "attribute='name'"),
+  (cs! "templates/namelist_list.html: project.namelists|sort", cs! "attribute='name'"),
+  (cs! "templates/proc_list.html: project.procedures|sort", cs! "attribute='name'"),
+  (cs! "templates/prog_list.html: project.programs|sort", cs! "attribute='name'"),
+  (cs! "templates/types_list.html: project.types|sort", cs! "attribute='name'")
+]
+
+/-! ### the entries of a page directory (`get_page_tree`)
+
+  `enum` is what `os.listdir` returns: the names in the directory (pairwise different) in the order the file
+  system happens to enumerate them - an adversarial input. -/
+
+/-- `os.path.splitext(name)[0]`: cut at the last dot unless only dots precede it -/
+def lastDotSplit (name : Str) : Str :=
+  -- index of the last '.', usable only if some non-dot character precedes it
+  let rev := name.reverse
+  let ext := rev.takeWhile (· != '.')
+  if ext.length == rev.length then name
+  else
+    let stem := (rev.drop (ext.length + 1)).reverse
+    if stem.any (· != '.') then stem else name
+
+/-- the key of a keyed variant: lower-cased name without its extension -/
+def stemLower (name : Str) : Str := lower (lastDotSplit name)
+
+def pageKey (natural : Bool) (name : Str) : Str := if natural then name else stemLower name
+
+/-- `list(OrderedDict.fromkeys(l))`: first occurrences, in order -/
+def dedupAux : List Str → List Str → List Str
+  | _, [] => []
+  | seen, x :: xs => if seen.contains x then dedupAux seen xs else x :: dedupAux (x :: seen) xs
+
+def indexMd : Str := cs! "index.md"
+
+/-- `name[0] == "."` / `name[-1] == "~"` entries are skipped -/
+def pageVisible (name : Str) : Bool := !(name.head? == some '.') && !(name.getLast? == some '~')
+
+/-- the names `get_page_tree` walks for one directory, in order: the sorted listing without `index.md`, the
+    user's `ordered_subpage` list merged in front of it -/
+def pageFileList (natural : Bool) (ordered enum : List Str) : List Str :=
+  let fl := (sortOn (pageKey natural) enum).erase indexMd
+  let merged := if ordered.isEmpty then fl else dedupAux [] (ordered ++ fl)
+  merged.filter pageVisible
+
+/-- ... in the working tree (switch generated from the AST of `get_page_tree`) -/
+def pageFileListTree (ordered enum : List Str) : List Str := pageFileList Gen.C12.pageListNatural ordered enum
 
 
 end Ford.Order
